@@ -541,6 +541,13 @@ class World(object):
                 r = getattr(mf, k)(inner, self.fn(sub + ".fn", e[2]), self.fn(sub + ".err", e[3] if len(e) > 3 else None))
             elif k == "f_nocancel":
                 r = mf.f_nocancel(go(e[1]))
+            elif k == "f_nocancel1":
+                # one shared wrapper per source future
+                key = "nc:" + e[1]
+                r = self.futs.get(key)
+                if r is None:
+                    r = self.futs[key] = mf.f_nocancel(self.src(e[1]))
+                return r
             elif k == "f_proxy":
                 r = mf.f_proxy(go(e[1]), **({"timeout": e[2]} if len(e) > 2 and e[2] is not None else {}))
             elif k == "f_timeout":
@@ -676,13 +683,14 @@ class World(object):
                     f.set_exception(e)
                 elif kind == "fn":
                     f.set_result(self.fn(op[1] + ".fn", op[3]))
-                elif kind == "cancel":
+                elif kind in ("cancel", "cancel_plain"):
+                    if f.done():
+                        self.rec("complete_noop", fut=op[1])
+                        return "noop"
                     r = Future.cancel(f)
-                    if r:
+                    if r and kind == "cancel":
                         f.set_running_or_notify_cancel()
                     return r
-                elif kind == "cancel_plain":
-                    return Future.cancel(f)
             except InvalidStateError:
                 # the library cancelled this source meanwhile; a pool worker
                 # would skip the work item in exactly the same way
@@ -734,6 +742,8 @@ class World(object):
             return None
         if k == "now":
             return vsched.v_monotonic()
+        if k == "same":
+            return self.futs[op[1]] is self.futs[op[2]]
         if k == "nop":
             return None
         raise ValueError("bad op %r" % (op,))
